@@ -1,6 +1,6 @@
 (* C13 — property theorems only.  Statements are pinned in Pins_C13.v (compiled on every run). *)
 From Coq Require Import List String Bool Arith.
-From SV Require Import c13.Model_C13 c13.Proofs_C13.
+From SV Require Import c13.Model_C13 c13.Proofs_C13 c13.Proofs2_C13 c13.Proofs3_C13 c13.Proofs4_C13.
 Import ListNotations.
 Open Scope string_scope.
 
@@ -43,6 +43,52 @@ Proof. exact inst_closed. Qed.
 Theorem C13_match_total : forall ps xs imp,
   (exists b k, collect ps xs imp = Ok (b, k)) \/ (exists kind, collect ps xs imp = Err kind).
 Proof. exact collect_total. Qed.
+
+(* Matching binds every pattern variable to exactly the matched sub-forms.  For every pattern list in the class
+   wf_pattern (what parse_from_list builds: at most one ellipsis per list level whose sub-pattern binds a
+   variable, a dotted tail is last and is a variable, no wildcard, pairwise distinct variables; any nesting,
+   ellipsis followed by more patterns and by a dotted tail) and every user-written form (proper or dotted):
+   if match_list_pattern accepts, collect_bindings (the repaired code) succeeds, binds exactly the pattern
+   variables, and instantiating the pattern itself as a template under these bindings gives back the form -
+   a variable under k ellipses is bound to a k-fold nested list whose projections reproduce each repetition. *)
+Theorem C13_match_sound_complete : forall bound ps xs imp,
+  wf_pattern ps = true -> plain (SL xs imp) = true -> match_list bound ps xs imp = true ->
+  exists b k, collect ps xs imp = Ok (b, k) /\
+    (forall x, In x (dom b) <-> In x (flat_map pvars ps)) /\
+    pinst (PNested ps) b = Some (SL xs imp).
+Proof. exact match_sound_complete_l. Qed.
+
+(* non-vacuity: (x (a b ...) ... c . r) against (0 (1 2 3) (4) 6 . 7) *)
+Example C13_match_nonvacuous :
+  let ps := [PSingle "x"; PMany (PNested [PSingle "a"; PMany (PSingle "b")]); PSingle "c"; PRest (PSingle "r")] in
+  let xs := [Lit "0"; SL [Lit "1"; Lit "2"; Lit "3"] false; SL [Lit "4"] false; Lit "6"; Lit "7"] in
+  wf_pattern ps = true /\ plain (SL xs true) = true /\ match_list (fun _ => false) ps xs true = true /\
+  show_env (collect ps xs true) = "[r 7] [c 6] [a (1 4)] [b ((2 3) ())] [x 0]".
+Proof. vm_compute. repeat split. Qed.
+
+(* Fuel bound for template instantiation (the faithful ReplaceExpressions model, any template): with
+   fuel >= depth of the template + D, where D bounds the nesting depth of the matched sub-forms, inst never
+   runs out of fuel, so C13_instantiate_closed and the expander (INST_FUEL = 4096) do not depend on fuel.
+   Hypotheses: env_ok - no identifier of a matched sub-form is a key of the environment (keys are the
+   ##-prefixed pattern variables; the reader rejects ## in user code - without this the engine itself loops
+   on (m (##a ...))); no wildcard key; uid_ok - the in-scope ## prefixing of ReplaceExpressions does not
+   apply to a free identifier of the template (no use-site local binding shadows a non-global free identifier
+   of the template). *)
+Theorem C13_inst_fuel : forall in_scope is_global kinds s t D fuel,
+  ~ In "_" (dom s) ->
+  env_ok in_scope is_global (dom s) D s ->
+  uid_ok in_scope is_global t ->
+  depth t + D <= fuel ->
+  inst in_scope is_global kinds fuel s [] t <> OutOfFuel.
+Proof. exact inst_fuel_top. Qed.
+
+(* Towards the expander: every occurrence and every binder in scope that the resolution looks at is an
+   identifier atom of the program, hence a program in which no spelling occurs with two different origins
+   (template-introduced identifiers carry spellings the user's forms do not use, and vice versa) is outside
+   the known class, i.e. resolved hygienically by C13_hygiene_outside_known. *)
+Theorem C13_no_shared_spelling : forall e,
+  (forall v b, In v (ids e) -> In b (ids e) -> fst v = fst b -> snd v = snd b) -> known_class e = false.
+Proof. exact no_shared_spelling_l. Qed.
 
 (* F7, first witness: nested macros introducing the same spelling; replayed on the engine by checks/c13.py *)
 Theorem C13_hygiene_refuted :
